@@ -207,6 +207,15 @@ func init() {
 					how := "after-command"
 					if body > 0 && len(keys[body-1]) == 1 && keys[body-1][0] >= 0x20 && keys[body-1][0] < 0x7f {
 						how = "after-typing" // the text before the undos was typed and never saved
+					} else if body > 0 {
+						// which command made the state the redos do not bring back: the known finding lists the commands
+						// that do not save the line by themselves; another one is another violation
+						how += fmt.Sprintf("/k%x", keys[body-1])
+						// ... and whether that command changed the text (a command that edits saves the line: a
+						// movement after unsaved typing is the known case)
+						if body > 0 && tr.Waits[body].Line != tr.Waits[body-1].Line {
+							how += "/edits"
+						}
 					}
 					if strings.Contains(strings.Join(keys[:body], ""), c07Undo) || strings.Contains(strings.Join(keys[:body], ""), c07Redo) {
 						how += "/undone-before"
